@@ -932,6 +932,7 @@ func (ld *loaded) lockCoverage(prop string, reports []*FuncReport) []*FuncReport
 				onceVar[gd.Field] = gd
 			}
 		}
+		completer := ld.onceCompleters(fns, pp, onceVar)
 		for _, fn := range fns {
 			touches := map[string]token.Pos{}
 			// functions literals handed to <once>.Do, and the positions of <once>.Do calls
@@ -966,7 +967,7 @@ func (ld *loaded) lockCoverage(prop string, reports []*FuncReport) []*FuncReport
 					"every function that touches a guarded field is verified (its accesses carry lock obligations)", ok)
 			}
 			if len(onceVar) > 0 {
-				ld.onceScan(fn, pp, onceVar, mk)
+				ld.onceScan(fn, pp, onceVar, completer, mk)
 			}
 		}
 		out = append(out, rep)
@@ -975,7 +976,74 @@ func (ld *loaded) lockCoverage(prop string, reports []*FuncReport) []*FuncReport
 }
 
 // onceScan: accesses of once-guarded package variables in one function.
-func (ld *loaded) onceScan(fn *ssa.Function, pp string, onceVar map[string]*GuardDecl, mk func(name, pos, comment string, ok bool)) {
+// onceCompleters: functions of the package that cannot return without <once>.Do having returned (a call of <once>.Do, or
+// of another such function, lies on every path to every return).
+func (ld *loaded) onceCompleters(fns []*ssa.Function, pp string, onceVar map[string]*GuardDecl) map[*ssa.Function]map[string]bool {
+	out := map[*ssa.Function]map[string]bool{}
+	onces := map[string]bool{}
+	for _, gd := range onceVar {
+		onces[gd.Once] = true
+	}
+	for changed := true; changed; {
+		changed = false
+		for _, fn := range fns {
+			for once := range onces {
+				if out[fn][once] {
+					continue
+				}
+				var rets []*ssa.BasicBlock
+				for _, b := range fn.Blocks {
+					if len(b.Instrs) > 0 {
+						if _, isRet := b.Instrs[len(b.Instrs)-1].(*ssa.Return); isRet {
+							rets = append(rets, b)
+						}
+					}
+				}
+				done := false
+				for _, b := range fn.Blocks {
+					for _, in := range b.Instrs {
+						c, isCall := in.(*ssa.Call)
+						if !isCall {
+							continue
+						}
+						callee := c.Common().StaticCallee()
+						if callee == nil {
+							continue
+						}
+						isDo := false
+						if callee.RelString(nil) == "(*sync.Once).Do" && len(c.Common().Args) == 2 {
+							if g, ok := c.Common().Args[0].(*ssa.Global); ok && g.Pkg.Pkg.Path() == pp && g.Name() == once {
+								isDo = true
+							}
+						}
+						if !isDo && !out[callee][once] {
+							continue
+						}
+						all := len(rets) > 0
+						for _, rb := range rets {
+							if !(b == rb || b.Dominates(rb)) {
+								all = false
+							}
+						}
+						if all {
+							done = true
+						}
+					}
+				}
+				if done {
+					if out[fn] == nil {
+						out[fn] = map[string]bool{}
+					}
+					out[fn][once] = true
+					changed = true
+				}
+			}
+		}
+	}
+	return out
+}
+
+func (ld *loaded) onceScan(fn *ssa.Function, pp string, onceVar map[string]*GuardDecl, completer map[*ssa.Function]map[string]bool, mk func(name, pos, comment string, ok bool)) {
 	eng := ld.eng
 	isOnceDo := func(in ssa.Instruction, once string) (lit *ssa.Function, ok bool) {
 		c, isCall := in.(ssa.CallInstruction)
@@ -1061,7 +1129,13 @@ func (ld *loaded) onceScan(fn *ssa.Function, pp string, onceVar map[string]*Guar
 			if !ok && !write {
 				for _, b2 := range fn.Blocks {
 					for _, in2 := range b2.Instrs {
-						if _, isDo := isOnceDo(in2, gd.Once); isDo && dom(in2, in) {
+						_, isDo := isOnceDo(in2, gd.Once)
+						if c, isCall := in2.(*ssa.Call); isCall && !isDo {
+							if callee := c.Common().StaticCallee(); callee != nil && completer[callee][gd.Once] {
+								isDo = true
+							}
+						}
+						if isDo && dom(in2, in) {
 							ok = true
 						}
 					}
